@@ -47,6 +47,11 @@ func fatAllScens(oracle string, quick bool, depth int) []*fatScen {
 	if !quick {
 		out = append(out, fatFillScenario(fatCfg{Type: 16, Size: 4400 << 10, Start: 1 << 20}, oracle, fd))
 	}
+	hd := depth
+	if hd > 3 {
+		hd = 3
+	}
+	out = append(out, fatHighClusterScenario(oracle, hd))
 	out = append(out, fatRootFullScenario(fatCfg{Type: 12, Size: 64 << 10}, oracle, depth+1))
 	return out
 }
